@@ -261,10 +261,11 @@ class TwistedRecorder:
         self.log.add("addFailure", test, {"err": snap_err(error)})
 
     def addExpectedFailure(self, test, failure, todo=None):
-        self.log.add("addExpectedFailure", test, {"err": snap_err(failure)})
+        self.log.add("addExpectedFailure", test, {"err": snap_err(failure), "todo": None if todo is None else repr(todo)})
 
     def addUnexpectedSuccess(self, test, todo=None):
-        self.log.add("addUnexpectedSuccess", test)
+        # (Twisted's second parameter is its own Todo object: nothing testtools has may land there)
+        self.log.add("addUnexpectedSuccess", test, {"todo": None if todo is None else repr(todo)})
 
     def addSkip(self, test, reason):
         self.log.add("addSkip", test, {"reason": reason})
